@@ -47,7 +47,7 @@ def groups_of(cs: list[dict], rng: random.Random, extra: int) -> list[list[str]]
     by = {e["id"]: e for e in cs}
     probes = [e["id"] for e in cs if e["id"] in S.PROBES]
     twins = [e["id"] for e in cs if e["twin_of"]]
-    plain = [e["id"] for e in cs if e["id"] not in S.PROBES and not e["twin_of"] and e["id"] not in {by[t]["twin_of"] for t in twins}]
+    plain = [e["id"] for e in cs if e["id"] not in S.PROBES and e["id"] not in S.FEATURES and not e["twin_of"] and e["id"] not in {by[t]["twin_of"] for t in twins}]
     rng.shuffle(plain)
     groups = []
     for t in twins:
@@ -58,6 +58,7 @@ def groups_of(cs: list[dict], rng: random.Random, extra: int) -> list[list[str]]
         groups.append((plain + [by[twins[0]]["twin_of"], twins[0]])[:3] if twins else plain)
     for i in range(0, len(probes), 3):
         groups.append(probes[i:i + 3])
+    groups += [list(g) for g in S.FEATURE_GROUPS]
     ids = [e["id"] for e in cs]
     for _ in range(extra):
         groups.append(rng.sample(ids, 3))
@@ -169,7 +170,10 @@ def run_and_validate(cs, groups, jobs, run=None, workers: int = 8):
     f = ref_events[0].get("file", "")
     if not f.startswith(str(REPO_SRC)):
         raise MachineryError(f"child imported Reduino from {f}, expected {REPO_SRC}")
-    acc = [e for e in ref_events if e["e"] == "transpile"]
+    acc = [e for e in ref_events if e["e"] == "transpile" and e["s"] not in S.EXPECT_REJECT]
+    late = [e["s"] for e in ref_events if e["e"] == "transpile" and e["s"] in S.EXPECT_REJECT and e["acc"]]
+    if late:
+        raise MachineryError(f"corpus scripts meant to be rejected late are accepted: {late}")
     if sum(1 for e in acc if e["acc"]) < 0.9 * len(acc):
         bad = [(e["s"], e.get("out")) for e in acc if not e["acc"]][:3]
         raise MachineryError(f"corpus is not meaningful: fewer than 90% of the scripts are accepted, e.g. {bad}")
